@@ -48,7 +48,26 @@ func genChainCase(r *rand.Rand, idx int64) *checkCase {
 		{Op: "and", Kids: []*Expr{{Op: "csr", Rel: "viewers"}, {Op: "csr", Rel: "banned"}}},
 		{Op: "not", Kids: []*Expr{{Op: "not", Kids: []*Expr{{Op: "csr", Rel: "viewers"}}}}},
 	}
-	doc.Rels = append(doc.Rels, &RelDef{Name: "view", Perm: true, Rewrite: exprs[r.IntN(len(exprs))]})
+	V := func() *Expr { return &Expr{Op: "csr", Rel: "viewers"} }
+	B := func() *Expr { return &Expr{Op: "csr", Rel: "banned"} }
+	not := func(e *Expr) *Expr { return &Expr{Op: "not", Kids: []*Expr{e}} }
+	// negations over unions / intersections whose operands are themselves cut
+	// short: where "unknown" meets "not a member" inside a union or intersection
+	// below another negation, in both operand orders
+	exprs = append(exprs,
+		not(&Expr{Op: "or", Kids: []*Expr{not(V()), B()}}),
+		not(&Expr{Op: "or", Kids: []*Expr{B(), not(V())}}),
+		not(&Expr{Op: "and", Kids: []*Expr{not(V()), not(B())}}),
+		not(&Expr{Op: "or", Kids: []*Expr{not(B()), V(), B()}}),
+		&Expr{Op: "or", Kids: []*Expr{not(&Expr{Op: "or", Kids: []*Expr{not(B()), not(V())}}), B()}},
+		not(&Expr{Op: "or", Kids: []*Expr{{Op: "ttu", Rel: "parents", Comp: "viewers"}, not(V()), B()}}),
+	)
+	rewrite := exprs[r.IntN(len(exprs))]
+	if r.IntN(3) == 0 {
+		tmp := &Cfg{NS: []*NSDef{user, group, doc}}
+		rewrite = genExpr(r, tmp, doc, nil, genOpts{AllowAnd: true, AllowNot: true, AllowTTU: false, MaxExprDepth: 3}, 3)
+	}
+	doc.Rels = append(doc.Rels, &RelDef{Name: "view", Perm: true, Rewrite: rewrite})
 	cc.Cfg = &Cfg{NS: []*NSDef{user, group, doc}}
 	L := 1 + r.IntN(8)
 	var ts []*Tup
